@@ -70,6 +70,11 @@ void valid_case(const LMap& m, bool viaFile, Stats& st, bool allPrefixes, unsign
 		Res q = read_bytes(p, false, false);
 		V_CHECK(!q.ok, "prefix of " << n << " bytes of a valid map (" << L.end << " bytes consumed) was returned as a smaller success");
 		++st.evaluations;
+		if (n + 24 >= L.end || n < 40 || n % 11 == 0) {   // the file-name overload as well (a file reader's seeks do not fail past the end by themselves)
+			Res qf = read_bytes(p, false, true);
+			V_CHECK(!qf.ok, "prefix of " << n << " bytes of a valid map (" << L.end << " bytes consumed) was returned as a smaller success by ReadMap(filename)");
+			++st.evaluations;
+		}
 	}
 	st.cls("valid_map_with_prefixes");
 }
@@ -110,6 +115,11 @@ void saved_equivalence(const LMap& m0, const refmap::SaveExtra& x, bool viaFile,
 			try { Stream::MemoryReader rd(ph, n); Map q = Map::ReadSavedGame(rd); ok = true; } catch (const std::exception&) {}
 			V_CHECK(!ok, "prefix of " << n << " bytes of a valid saved game (" << consumed << " consumed) was returned as a success");
 			++st.evaluations;
+			if (n + 16 >= consumed || (n >= refmap::SaveHeaderSkip - 2 && n <= refmap::SaveHeaderSkip + 24) || n % 9973 == 0) {
+				std::vector<uint8_t> pv(sv.begin(), sv.begin() + n); Res qf = read_bytes(pv, true, true);
+				V_CHECK(!qf.ok, "prefix of " << n << " bytes of a valid saved game (" << consumed << " consumed) was returned as a success by ReadSavedGame(filename)");
+				++st.evaluations;
+			}
 		}
 	}
 	st.cls("saved:equivalent_to_map");
@@ -182,6 +192,19 @@ void run_sweep(Stats& st) {
 			std::vector<uint8_t> b = full;
 			for (int j = 0; j < 4; ++j) { b[8 + j] = uint8_t(lg >> (8 * j)); b[12 + j] = uint8_t(h >> (8 * j)); }
 			arbitrary_case(b, false, false, st, "dims");
+		}
+	}
+	// dimensions that only make sense after a wrap, on files that SUPPLY the tiles the wrapped value asks for: log2 width = 0 mod 32
+	// (1 << 32 acting as 1 << 0), products of exactly 2^32 (+ a few tiles)
+	{
+		struct D { uint32_t lg, h; uint64_t supplied; };
+		const D ds[] = {{32, 1, 1}, {32, 4, 4}, {64, 2, 2}, {0x100, 3, 3}, {0x80000000u, 1, 1}, {33, 2, 4}, {4, 0x10000001u, 16}, {10, 0x00400001u, 1024}, {1, 0x80000001u, 2}, {16, 0x10001u, 65536}, {31, 2, 0}, {16, 0x10000u, 0}};
+		for (size_t di = 0; di < sizeof ds / sizeof ds[0]; ++di) {
+			if (!sw("dims_supplied", di)) continue;
+			LMap m = small_seed(0); m.sources = {{"w", 1}}; m.lgWidth = 0; m.height = uint32_t(ds[di].supplied); m.tiles.assign(size_t(ds[di].supplied), 0x01020304u);
+			std::vector<uint8_t> b = refmap::encode(m);
+			for (int j = 0; j < 4; ++j) { b[8 + j] = uint8_t(ds[di].lg >> (8 * j)); b[12 + j] = uint8_t(ds[di].h >> (8 * j)); }
+			arbitrary_case(b, false, di & 1, st, "dims_supplied");
 		}
 	}
 	// saved games: equivalence with the embedded map, prefixes (sampled in quick, all in thorough), header fields
